@@ -768,7 +768,7 @@ def getattr_(I, obj, name):
         if name == "__iter__":
             return Native("abs.__iter__", lambda I_, a, k: AbsIter(obj))
         if name == "copy":
-            return Native("abs.copy", lambda I_, a, k: obj)
+            return Native("abs.copy", lambda I_, a, k: obj if obj.kind == "frozenset" else obj.clone())
     if is_str(obj):
         from . import strlib
         return strlib.str_method(I, obj, name)
@@ -1449,7 +1449,7 @@ def install(I):
                 r.summary = src.summary
                 return r
             if isinstance(src, AbsColl):
-                return src
+                return src.clone("frozenset" if frozen else "set")
             r = PSet([], frozen=frozen)
             for x in I_.iter_concrete(src):
                 set_add(I_, r, x)
